@@ -60,11 +60,17 @@ func errClass(err error) string {
 func TestC24(t *testing.T) {
 	m := mon.New(t, "C24")
 	defer m.Done()
-	m.Rule("roundtrip case = (struct type from {mirrors of all 38 message structs of ssh/messages.go, ssh.Signature, agent.Key, 9 ad hoc structs covering byte/bool/uint32/uint64/string/[]byte/[]string/*big.Int/[N]byte/rest/multi-sshtype/no-sshtype}, field values by kind from boundary sets: mpints {0,±1,±127..±257,±2^k,±(2^k±1), k<=520 (some to 1100)} and random, name-lists nil/empty/with empty entries/arbitrary bytes without comma, lengths around 0,1,59..65,255..257); judged: ssh.Marshal == ref RFC 4251 encoding, ssh.Unmarshal(ssh.Marshal(m)) == m, ssh.Unmarshal(ref bytes) == m, input not modified. decode case = random bytes or one edit (bit flip, byte set/insert/delete, truncate, append, message number, length prefix ±1/huge) of a valid packet fed to ssh.Unmarshal for the same type and to the ref decoder; judged: no panic, accept/reject equal to ref (wrong number, trailing bytes, short fields rejected; canonical encodings accepted), equal values, re-marshal canonical. mux case = one packet handed to the real mux (VerifNewMux) whose loop runs decode(); judged by the mux's observable reaction. distinct key = (type, value classes) or (type, edit, outcome); non-trivial = reached an oracle comparison")
+	m.Rule("roundtrip case = (struct type from {mirrors of all 38 message structs of ssh/messages.go, ssh.Signature, agent.Key, 9 ad hoc structs covering byte/bool/uint32/uint64/string/[]byte/[]string/*big.Int/[N]byte/rest/multi-sshtype/no-sshtype}, field values by kind from boundary sets: mpints {0,±1,±127..±257,±2^k,±(2^k±1), k<=520 (some to 1100)} and random, name-lists nil/empty/with empty entries/arbitrary bytes without comma, lengths around 0,1,59..65,255..257); judged: ssh.Marshal == ref RFC 4251 encoding, ssh.Unmarshal(ssh.Marshal(m)) == m, ssh.Unmarshal(ref bytes) == m, input not modified. decode case = random bytes or one edit (bit flip, byte set/insert/delete, truncate, append, message number, length prefix ±1/huge) of a valid packet fed to ssh.Unmarshal for the same type and to the ref decoder; judged: no panic, accept/reject equal to ref (wrong number, trailing bytes, short fields rejected; canonical encodings accepted), equal values, re-marshal canonical. concurrency case = ssh.Marshal of one shared struct and ssh.Unmarshal of one shared read-only packet (plus one distinct struct/packet per goroutine) from 4..8 goroutines at once, expectations from the ref codec precomputed single-threaded, barrier start, judged after join, every 4th case on a single P with yields; also built with -race (that variant runs only this stream). mux case = one packet handed to the real mux (VerifNewMux) whose loop runs decode(); judged by the mux's observable reaction. distinct key = (type, value classes) or (type, edit, outcome); non-trivial = reached an oracle comparison")
 	m.Assume("h/ref/sshwirecodec (written from RFC 4251 §5, unit-tested on the RFC's examples and a hand-written two's complement table) is the reference; the mirrored struct declarations are compared with the messages.go the binary was built from (drift => inconclusive)")
 	m.Assume("the list [\"\"] and the empty name-list have the same wire form: both readings accepted; nil and empty slices are the same value; non-canonical but decodable input (boolean >1, mpint with unnecessary leading bytes) may be accepted (then the value is judged) or rejected; SSH_MSG_USERAUTH_SUCCESS (52, no fields, debug-only struct) is not judged for trailing bytes")
 
 	tds := describeAll(t)
+
+	if mon.RaceBuild {
+		// race-detector variant: only the shared-value concurrency stream
+		concStreams24(m, tds)
+		return
+	}
 
 	// the mirrors really are the repo's message structs
 	if m.Batch() == 0 {
@@ -181,6 +187,8 @@ func TestC24(t *testing.T) {
 	m.Cases("dsa-der", m.N(1500, 100000), func(i int64, r *rand.Rand) {
 		dsaDERCase(m, i, r)
 	})
+
+	concStreams24(m, tds)
 
 	m.Gate("mirror_types_verified", 38, "all message structs of messages.go are mirrored field by field")
 	m.Gate("mpint_sweep_negative", 1500, "negative mpints at every bit length up to 520 went through Marshal/Unmarshal")
